@@ -433,6 +433,12 @@ func (p *Peer) handleReplicatorFailure(ctx context.Context, peerID, docID string
 }
 
 func (p *Peer) handleCompletedReplicatorRetry(ctx context.Context, peerID string, success bool) error {
+	// The retry record of the peer is also written when a push fails (handleReplicatorFailure). The two
+	// must not overlap: one of them would fail with a transaction conflict, and a failure that cannot be
+	// recorded is a document that is never sent again.
+	p.handleRetryMutex.Lock()
+	defer p.handleRetryMutex.Unlock()
+
 	clientTxn, err := p.db.NewTxn(ctx, false)
 	if err != nil {
 		return err
@@ -612,6 +618,10 @@ func (p *Peer) retryReplicators(ctx context.Context) {
 }
 
 func (p *Peer) setReplicatorAsRetrying(ctx context.Context, key keys.ReplicatorRetryIDKey, rInfo retryInfo) error {
+	// see handleCompletedReplicatorRetry
+	p.handleRetryMutex.Lock()
+	defer p.handleRetryMutex.Unlock()
+
 	rInfo.Retrying = true
 	rInfo.NumRetries++
 	b, err := cbor.Marshal(rInfo)
